@@ -561,4 +561,237 @@ theorem not_le_nan_right {a b : F64} (h : NaN b) : ¬ a ≤ b := fun hh => h ((l
 theorem not_lt_nan_left {a b : F64} (h : NaN a) : ¬ a < b := fun hh => h ((lt_def a b).1 hh).1
 theorem not_lt_nan_right {a b : F64} (h : NaN b) : ¬ a < b := fun hh => h ((lt_def a b).1 hh).2.1
 
+/-! ## intervals -/
+
+theorem corner_lo (a b l1 h1 l2 h2 : ℚ) (ha1 : l1 ≤ a) (ha2 : a ≤ h1) (hb1 : l2 ≤ b) (hb2 : b ≤ h2) :
+    l1 * l2 ≤ a * b ∨ l1 * h2 ≤ a * b ∨ h1 * l2 ≤ a * b ∨ h1 * h2 ≤ a * b := by
+  rcases le_total 0 b with hb | hb
+  · have h1' : l1 * b ≤ a * b := mul_le_mul_of_nonneg_right ha1 hb
+    rcases le_total 0 l1 with hl | hl
+    · left; exact le_trans (mul_le_mul_of_nonneg_left hb1 hl) h1'
+    · right; left; exact le_trans (mul_le_mul_of_nonpos_left hb2 hl) h1'
+  · have h1' : h1 * b ≤ a * b := mul_le_mul_of_nonpos_right ha2 hb
+    rcases le_total 0 h1 with hl | hl
+    · right; right; left; exact le_trans (mul_le_mul_of_nonneg_left hb1 hl) h1'
+    · right; right; right; exact le_trans (mul_le_mul_of_nonpos_left hb2 hl) h1'
+
+theorem corner_hi (a b l1 h1 l2 h2 : ℚ) (ha1 : l1 ≤ a) (ha2 : a ≤ h1) (hb1 : l2 ≤ b) (hb2 : b ≤ h2) :
+    a * b ≤ l1 * l2 ∨ a * b ≤ l1 * h2 ∨ a * b ≤ h1 * l2 ∨ a * b ≤ h1 * h2 := by
+  rcases corner_lo (-a) b (-h1) (-l1) l2 h2 (by linarith) (by linarith) hb1 hb2 with h | h | h | h
+  · right; right; left; linarith
+  · right; right; right; linarith
+  · left; linarith
+  · right; left; linarith
+
+/-- smaller / larger of two numbers by the float comparison -/
+def fmin (a b : F64) : F64 := if a ≤ b then a else b
+def fmax (a b : F64) : F64 := if a ≤ b then b else a
+
+theorem fmin_spec {a b : F64} (ha : NN a) (hb : NN b) : fmin a b ≤ a ∧ fmin a b ≤ b := by
+  unfold fmin; split
+  · rename_i h; exact ⟨le_refl' ha, h⟩
+  · rename_i h; exact ⟨lt_le' (not_le_of_NN ha hb h), le_refl' hb⟩
+
+theorem fmax_spec {a b : F64} (ha : NN a) (hb : NN b) : a ≤ fmax a b ∧ b ≤ fmax a b := by
+  unfold fmax; split
+  · rename_i h; exact ⟨h, le_refl' hb⟩
+  · rename_i h; exact ⟨le_refl' ha, lt_le' (not_le_of_NN ha hb h)⟩
+
+theorem le_NN_left {a b : F64} (h : a ≤ b) : NN a := ((le_def a b).1 h).1
+theorem le_NN_right {a b : F64} (h : a ≤ b) : NN b := ((le_def a b).1 h).2.1
+
+def fmin4 (a b c d : F64) : F64 := fmin (fmin a b) (fmin c d)
+def fmax4 (a b c d : F64) : F64 := fmax (fmax a b) (fmax c d)
+
+theorem fmin4_spec {a b c d : F64} (ha : NN a) (hb : NN b) (hc : NN c) (hd : NN d) :
+    fmin4 a b c d ≤ a ∧ fmin4 a b c d ≤ b ∧ fmin4 a b c d ≤ c ∧ fmin4 a b c d ≤ d := by
+  obtain ⟨h1, h2⟩ := fmin_spec ha hb
+  obtain ⟨h3, h4⟩ := fmin_spec hc hd
+  obtain ⟨h5, h6⟩ := fmin_spec (le_NN_left h1) (le_NN_left h3)
+  exact ⟨le_trans' h5 h1, le_trans' h5 h2, le_trans' h6 h3, le_trans' h6 h4⟩
+
+theorem fmax4_spec {a b c d : F64} (ha : NN a) (hb : NN b) (hc : NN c) (hd : NN d) :
+    a ≤ fmax4 a b c d ∧ b ≤ fmax4 a b c d ∧ c ≤ fmax4 a b c d ∧ d ≤ fmax4 a b c d := by
+  obtain ⟨h1, h2⟩ := fmax_spec ha hb
+  obtain ⟨h3, h4⟩ := fmax_spec hc hd
+  obtain ⟨h5, h6⟩ := fmax_spec (le_NN_right h1) (le_NN_right h3)
+  exact ⟨le_trans' h1 h5, le_trans' h2 h5, le_trans' h3 h6, le_trans' h4 h6⟩
+
+/-- a closed interval with `F64` endpoints -/
+structure Ival where
+  lo : F64
+  hi : F64
+deriving DecidableEq, Repr
+
+namespace Ival
+
+/-- both endpoints finite -/
+def valid (I : Ival) : Prop := Fin I.lo ∧ Fin I.hi
+instance (I : Ival) : Decidable I.valid := by unfold valid; infer_instance
+
+/-- the result of an operation that left the supported domain -/
+def bad : Ival := ⟨⟨0x7ff8000000000001⟩, ⟨0x7ff8000000000001⟩⟩
+theorem bad_invalid : ¬ bad.valid := by decide
+
+/-- `a` is a NaN or lies in `I`; says nothing when `I` is not valid -/
+def In (a : F64) (I : Ival) : Prop := I.valid → (NaN a ∨ (I.lo ≤ a ∧ a ≤ I.hi))
+
+def chk (c : Prop) [Decidable c] (K : Ival) : Ival := if c ∧ K.valid then K else bad
+
+theorem chk_valid {c : Prop} [Decidable c] {K : Ival} (h : (chk c K).valid) : c ∧ K.valid ∧ chk c K = K := by
+  unfold chk at *
+  split
+  · rename_i hc; exact ⟨hc.1, hc.2, rfl⟩
+  · rename_i hc; rw [if_neg hc] at h; exact absurd h bad_invalid
+
+def pt (c : F64) : Ival := ⟨c, c⟩
+def add (I J : Ival) : Ival := chk (I.valid ∧ J.valid) ⟨I.lo + J.lo, I.hi + J.hi⟩
+def sub (I J : Ival) : Ival := chk (I.valid ∧ J.valid) ⟨I.lo - J.hi, I.hi - J.lo⟩
+def neg (I : Ival) : Ival := chk I.valid ⟨-I.hi, -I.lo⟩
+def mul (I J : Ival) : Ival := chk (I.valid ∧ J.valid)
+  ⟨fmin4 (I.lo * J.lo) (I.lo * J.hi) (I.hi * J.lo) (I.hi * J.hi),
+   fmax4 (I.lo * J.lo) (I.lo * J.hi) (I.hi * J.lo) (I.hi * J.hi)⟩
+/-- division by a strictly positive interval -/
+def div (I J : Ival) : Ival := chk (I.valid ∧ J.valid ∧ (0 : F64) < J.lo)
+  ⟨fmin4 (I.lo / J.lo) (I.lo / J.hi) (I.hi / J.lo) (I.hi / J.hi),
+   fmax4 (I.lo / J.lo) (I.lo / J.hi) (I.hi / J.lo) (I.hi / J.hi)⟩
+
+theorem In_pt {c : F64} (h : NN c) : In c (pt c) := fun _ => Or.inr ⟨le_refl' h, le_refl' h⟩
+
+theorem In_of_le {a lo hi : F64} (h1 : lo ≤ a) (h2 : a ≤ hi) : In a ⟨lo, hi⟩ := fun _ => Or.inr ⟨h1, h2⟩
+
+theorem In_nan {a : F64} (I : Ival) (h : NaN a) : In a I := fun _ => Or.inl h
+
+theorem In_mono {a : F64} {I J : Ival} (h : In a I) (hI : I.valid) (h1 : J.lo ≤ I.lo) (h2 : I.hi ≤ J.hi) :
+    In a J := by
+  intro _
+  rcases h hI with hn | ⟨a1, a2⟩
+  · exact Or.inl hn
+  · exact Or.inr ⟨le_trans' h1 a1, le_trans' a2 h2⟩
+
+theorem In_add {a b : F64} {I J : Ival} (ha : In a I) (hb : In b J) : In (a + b) (I.add J) := by
+  intro hv
+  obtain ⟨⟨vI, vJ⟩, _, e⟩ := chk_valid hv
+  unfold add; rw [e]
+  rcases ha vI with na | ⟨a1, a2⟩
+  · exact Or.inl (add_nan (Or.inl na))
+  rcases hb vJ with nb | ⟨b1, b2⟩
+  · exact Or.inl (add_nan (Or.inr nb))
+  have fa := Fin_between vI.1 vI.2 a1 a2
+  have fb := Fin_between vJ.1 vJ.2 b1 b2
+  exact Or.inr ⟨add_mono vI.1 fa vJ.1 fb a1 b1, add_mono fa vI.2 fb vJ.2 a2 b2⟩
+
+theorem In_sub {a b : F64} {I J : Ival} (ha : In a I) (hb : In b J) : In (a - b) (I.sub J) := by
+  intro hv
+  obtain ⟨⟨vI, vJ⟩, _, e⟩ := chk_valid hv
+  unfold sub; rw [e]
+  rcases ha vI with na | ⟨a1, a2⟩
+  · exact Or.inl (sub_nan (Or.inl na))
+  rcases hb vJ with nb | ⟨b1, b2⟩
+  · exact Or.inl (sub_nan (Or.inr nb))
+  have fa := Fin_between vI.1 vI.2 a1 a2
+  have fb := Fin_between vJ.1 vJ.2 b1 b2
+  exact Or.inr ⟨sub_mono vI.1 fa vJ.2 fb a1 b2, sub_mono fa vI.2 fb vJ.1 a2 b1⟩
+
+theorem In_neg {a : F64} {I : Ival} (ha : In a I) : In (-a) I.neg := by
+  intro hv
+  obtain ⟨vI, _, e⟩ := chk_valid hv
+  unfold neg; rw [e]
+  rcases ha vI with na | ⟨a1, a2⟩
+  · exact Or.inl (neg_nan na)
+  exact Or.inr ⟨neg_le_neg' a2, neg_le_neg' a1⟩
+
+theorem In_mul {a b : F64} {I J : Ival} (ha : In a I) (hb : In b J) : In (a * b) (I.mul J) := by
+  intro hv
+  obtain ⟨⟨vI, vJ⟩, _, e⟩ := chk_valid hv
+  unfold mul; rw [e]
+  rcases ha vI with na | ⟨a1, a2⟩
+  · exact Or.inl (mul_nan (Or.inl na))
+  rcases hb vJ with nb | ⟨b1, b2⟩
+  · exact Or.inl (mul_nan (Or.inr nb))
+  have fa := Fin_between vI.1 vI.2 a1 a2
+  have fb := Fin_between vJ.1 vJ.2 b1 b2
+  have va1 := val_le_of_le vI.1 fa a1
+  have va2 := val_le_of_le fa vI.2 a2
+  have vb1 := val_le_of_le vJ.1 fb b1
+  have vb2 := val_le_of_le fb vJ.2 b2
+  have r := mul_nb fa fb
+  have r1 := mul_nb vI.1 vJ.1
+  have r2 := mul_nb vI.1 vJ.2
+  have r3 := mul_nb vI.2 vJ.1
+  have r4 := mul_nb vI.2 vJ.2
+  obtain ⟨m1, m2, m3, m4⟩ := fmin4_spec (Rnd_NNB _ _ r1) (Rnd_NNB _ _ r2) (Rnd_NNB _ _ r3) (Rnd_NNB _ _ r4)
+  obtain ⟨x1, x2, x3, x4⟩ := fmax4_spec (Rnd_NNB _ _ r1) (Rnd_NNB _ _ r2) (Rnd_NNB _ _ r3) (Rnd_NNB _ _ r4)
+  right
+  constructor
+  · rcases corner_lo _ _ _ _ _ _ va1 va2 vb1 vb2 with h | h | h | h
+    · exact le_trans' m1 (Rnd_le r1 r h)
+    · exact le_trans' m2 (Rnd_le r2 r h)
+    · exact le_trans' m3 (Rnd_le r3 r h)
+    · exact le_trans' m4 (Rnd_le r4 r h)
+  · rcases corner_hi _ _ _ _ _ _ va1 va2 vb1 vb2 with h | h | h | h
+    · exact le_trans' (Rnd_le r r1 h) x1
+    · exact le_trans' (Rnd_le r r2 h) x2
+    · exact le_trans' (Rnd_le r r3 h) x3
+    · exact le_trans' (Rnd_le r r4 h) x4
+
+theorem val_zero : val (0 : F64) = 0 := by
+  have : (0 : F64).nb = 0 := by decide
+  unfold val; rw [this]; exact bval_zero 0 (by decide)
+
+theorem In_div {a b : F64} {I J : Ival} (ha : In a I) (hb : In b J) : In (a / b) (I.div J) := by
+  intro hv
+  obtain ⟨⟨vI, vJ, hpos⟩, _, e⟩ := chk_valid hv
+  unfold div; rw [e]
+  rcases ha vI with na | ⟨a1, a2⟩
+  · exact Or.inl (div_nan (Or.inl na))
+  rcases hb vJ with nb | ⟨b1, b2⟩
+  · exact Or.inl (div_nan (Or.inr nb))
+  have fa := Fin_between vI.1 vI.2 a1 a2
+  have fb := Fin_between vJ.1 vJ.2 b1 b2
+  have va1 := val_le_of_le vI.1 fa a1
+  have va2 := val_le_of_le fa vI.2 a2
+  have vb1 := val_le_of_le vJ.1 fb b1
+  have vb2 := val_le_of_le fb vJ.2 b2
+  have f0 : Fin (0 : F64) := by decide
+  have hl : 0 < val J.lo := by
+    have := (lt_iff_val f0 vJ.1).1 hpos
+    rwa [val_zero] at this
+  have hbp : 0 < val b := lt_of_lt_of_le hl vb1
+  have hhp : 0 < val J.hi := lt_of_lt_of_le hbp vb2
+  have r := div_nb fa fb (ne_of_gt hbp)
+  have r1 := div_nb vI.1 vJ.1 (ne_of_gt hl)
+  have r2 := div_nb vI.1 vJ.2 (ne_of_gt hhp)
+  have r3 := div_nb vI.2 vJ.1 (ne_of_gt hl)
+  have r4 := div_nb vI.2 vJ.2 (ne_of_gt hhp)
+  obtain ⟨m1, m2, m3, m4⟩ := fmin4_spec (Rnd_NNB _ _ r1) (Rnd_NNB _ _ r2) (Rnd_NNB _ _ r3) (Rnd_NNB _ _ r4)
+  obtain ⟨x1, x2, x3, x4⟩ := fmax4_spec (Rnd_NNB _ _ r1) (Rnd_NNB _ _ r2) (Rnd_NNB _ _ r3) (Rnd_NNB _ _ r4)
+  -- reciprocals of the divisor interval
+  have i1 : (val J.hi)⁻¹ ≤ (val b)⁻¹ := inv_anti₀ hbp vb2
+  have i2 : (val b)⁻¹ ≤ (val J.lo)⁻¹ := inv_anti₀ hl vb1
+  simp only [div_eq_mul_inv] at r r1 r2 r3 r4
+  right
+  constructor
+  · rcases corner_lo _ _ _ _ _ _ va1 va2 i1 i2 with h | h | h | h
+    · exact le_trans' m2 (Rnd_le r2 r h)
+    · exact le_trans' m1 (Rnd_le r1 r h)
+    · exact le_trans' m4 (Rnd_le r4 r h)
+    · exact le_trans' m3 (Rnd_le r3 r h)
+  · rcases corner_hi _ _ _ _ _ _ va1 va2 i1 i2 with h | h | h | h
+    · exact le_trans' (Rnd_le r r2 h) x2
+    · exact le_trans' (Rnd_le r r1 h) x1
+    · exact le_trans' (Rnd_le r r4 h) x4
+    · exact le_trans' (Rnd_le r r3 h) x3
+
+/-- split an interval at a point -/
+theorem In_split {a : F64} {I : Ival} (m : F64) (hm : NN m) (hv : I.valid) (h : In a I) :
+    In a ⟨I.lo, m⟩ ∨ In a ⟨m, I.hi⟩ := by
+  rcases h hv with hn | ⟨a1, a2⟩
+  · exact Or.inl (In_nan _ hn)
+  · by_cases hc : a ≤ m
+    · exact Or.inl (In_of_le a1 hc)
+    · exact Or.inr (In_of_le (lt_le' (not_le_of_NN (le_NN_right a1) hm hc)) a2)
+
+end Ival
+
 end Ivg.FloatMono
